@@ -76,6 +76,7 @@ pub(super) struct Sim {
     pub(super) upgrades: (u64, u64),
     pub(super) last_lab_dump: BTreeMap<String, String>,
     pub(super) committed_txs: Vec<BuiltTx>,
+    pub(super) current_built: Vec<BuiltTx>,
     pub(super) in_flight: Vec<ibc::InFlight>,
     pub(super) packet_seq: u64,
     pub(super) ok: bool,
@@ -307,6 +308,7 @@ impl Sim {
             upgrades: (aspen, blackburn),
             last_lab_dump: BTreeMap::new(),
             committed_txs: vec![],
+            current_built: vec![],
             in_flight: vec![],
             packet_seq: 0,
             ok: true,
@@ -506,6 +508,7 @@ impl Sim {
             }
         }
         // ---- 4. lab replay of the decided block
+        self.current_built = built.clone();
         self.lab_block(&ctx).await;
         if !self.ok {
             return;
@@ -695,10 +698,37 @@ impl Sim {
                 return;
             }
         };
-        let mut executed = vec![];
+        let mut executed: Vec<ExecutedTransaction> = vec![];
         let ntx = user_txs.len();
         for (idx, tx) in user_txs.into_iter().enumerate() {
             // ---- trials on a fork of the intermediate state
+            // a transaction that already executed earlier in this block, executed again through the very same
+            // CheckedTransaction (constructed against the block-start state): must fail on its nonce and change nothing
+            if !executed.is_empty() && self.rng.gen_bool(0.35) {
+                let k = self.rng.gen_range(0..executed.len());
+                let again: Arc<CheckedTransaction> = executed[k].tx.clone();
+                let rid = again.id().to_string();
+                let mut txj = match self.current_built.iter().chain(self.committed_txs.iter()).find(|b| b.id == rid) {
+                    Some(b) => b.to_json(hist, height),
+                    None => json!({"id": rid, "signer": 0, "nonce": again.nonce(), "actions": [], "unknown_signer": true}),
+                };
+                txj["intent"] = json!("trial:replay_executed_in_block");
+                let fork = Arc::get_mut(&mut app.state).expect("unique state").fork();
+                let saved = std::mem::replace(&mut app.state, Arc::new(fork));
+                let saved_recost = app.recost_mempool;
+                let res = vlog_guard_async(app.execute_transaction(again)).await;
+                let after = dump_state(app.state()).await;
+                let trial_state = std::mem::replace(&mut app.state, saved);
+                drop(trial_state);
+                app.recost_mempool = saved_recost;
+                let (result, events) = match res {
+                    Ok(Ok(ev)) => ("ok".to_string(), events_json(&ev)),
+                    Ok(Err(e)) => (format!("err:{}", short(&format!("{e:#}"))), json!([])),
+                    Err(p) => (format!("panic:{p}"), json!([])),
+                };
+                self.log.ev(json!({"kind": "lab_trial", "hist": hist, "height": height, "at": idx, "n": 99, "tx": txj,
+                    "result": result, "events": events, "diff": diff_of(&cur, &after), "replay_of_executed": true}));
+            }
             let ntrials = if self.rng.gen_bool(0.7) { self.rng.gen_range(1..=3) } else { 0 };
             for t in 0..ntrials {
                 let Some(trial) = gen::build_trial_tx(&mut self.uni, &mut self.rng, app.state(), &self.committed_txs, &executed_ids(&executed), height).await else {
